@@ -1216,6 +1216,17 @@ func metadataSize(meta map[string]string) int {
 	return total
 }
 
+// validHeaderValue reports whether v can be the value of an HTTP header field:
+// no control characters other than a horizontal tab.
+func validHeaderValue(v string) bool {
+	for i := 0; i < len(v); i++ {
+		if c := v[i]; (c < 0x20 && c != '\t') || c == 0x7f {
+			return false
+		}
+	}
+	return true
+}
+
 func metadataHeaders(headers map[string][]string, at time.Time, sizeLimit int) (map[string]string, error) {
 	meta := make(map[string]string)
 	for hk, hv := range headers {
@@ -1223,6 +1234,11 @@ func metadataHeaders(headers map[string][]string, at time.Time, sizeLimit int) (
 			hk == "Content-Type" ||
 			hk == "Content-Disposition" ||
 			hk == "Content-Encoding" {
+			if !validHeaderValue(hv[0]) {
+				// It comes back as a response header of every GET and HEAD
+				// (form fields, unlike request headers, arrive unchecked).
+				return meta, ErrorMessagef(ErrInvalidArgument, "control character in the value of %q", hk)
+			}
 			meta[hk] = hv[0]
 		}
 	}
